@@ -392,6 +392,120 @@ func c13(c *core.Ctx) {
 		}
 	})
 
+	c.Clause("C13.4", "the two sides of the schedule agree on their inputs: miner and verifier read the deputy set of the height being mined (parent height + 1) for the round length and for the rotation, and the parent's miner takes part in the rotation only outside the first block of a term / height 1")
+	c.Run("schedule-inputs", func() {
+		const dn = "chain/deputynode"
+		hdrHeight := c.FieldVar("chain/types.Header", "Height")
+		isNext := func(v ssa.Value, parent ssa.Value) bool {
+			sl := core.Slice(v)
+			return sl[parent] && core.SliceHasField(sl, hdrHeight) && core.SliceHasIntConst(sl, 1) && core.SliceHasOp(sl, token.ADD)
+		}
+		gcm := c.Fn("chain/consensus.GetCorrectMiner")
+		cnt := core.CallsIn(gcm, c.Method(dn+".Manager", "GetDeputiesCount"))
+		rot := core.CallsIn(gcm, c.Method(dn+".Manager", "GetDeputyByDistance"))
+		ok := len(cnt) == 1 && len(rot) == 1
+		if ok {
+			ok = isNext(cnt[0].Common().Args[1], gcm.Params[0]) && isNext(rot[0].Common().Args[1], gcm.Params[0])
+		}
+		c.Check("GetCorrectMiner:deputies-of(parent.Height+1)", "value-flow", ok, gcm.Pos(), "the verifier takes the round length and the rotation from the deputy set of the block being verified (parent height + 1), both from the same height")
+		if len(rot) == 1 {
+			a := rot[0].Common().Args
+			sl := core.Slice(a[2])
+			c.Check("GetCorrectMiner:rotation-starts-after(parent.MinerAddress)", "value-flow", sl[gcm.Params[0]] && core.SliceHasField(sl, c.FieldVar("chain/types.Header", "MinerAddress")), rot[0].Pos(), "the rotation starts after the parent's miner")
+		}
+		// miner side: one height for distance and window, = parent height + 1
+		sch := c.Fn("chain/miner.Miner.schedule")
+		gmd := core.CallsIn(sch, c.Method(dn+".Manager", "GetMinerDistance"))
+		gst := core.CallsIn(sch, c.Method("chain/miner.Miner", "getSleepTime"))
+		ok = len(gmd) == 1 && len(gst) >= 1
+		if ok {
+			h := gmd[0].Common().Args[1]
+			hs := core.Slice(h)
+			ok = core.SliceHasCall(hs, c.Method("chain/types.Block", "Height")) && core.SliceHasIntConst(hs, 1) && core.SliceHasOp(hs, token.ADD) && hs[sch.Params[1]]
+			for _, g := range gst {
+				if g.Common().Args[1] != h && !core.Derived(h)[g.Common().Args[1]] {
+					ok = false
+				}
+			}
+		}
+		c.Check("Miner.schedule:distance-and-window-for(parent.Height+1)", "value-flow", ok, sch.Pos(), "the miner computes its distance and its window for the same height, the parent's height + 1")
+		gs := c.Fn("chain/miner.Miner.getSleepTime")
+		for _, g := range core.CallsIn(gs, c.FuncObj("chain/consensus.GetNextMineWindow")) {
+			a := g.Common().Args
+			c.Check("getSleepTime:GetNextMineWindow(mineHeight, distance)", "value-flow", a[0] == gs.Params[1] && a[1] == gs.Params[2], g.Pos(), "the window is computed for the height and distance handed in")
+		}
+		gnw := c.Fn("chain/consensus.GetNextMineWindow")
+		for _, g := range core.CallsIn(gnw, c.Method(dn+".Manager", "GetDeputiesCount")) {
+			c.Check("GetNextMineWindow:GetDeputiesCount(nextHeight)", "value-flow", g.Common().Args[1] == gnw.Params[0], g.Pos(), "the miner's round length comes from the deputy set of the height being mined")
+		}
+		// the parent's miner is consulted only outside the term-start / height-1 case, in both rotation functions
+		snap := c.FuncObj(dn + ".IsRewardBlock")
+		for _, spec := range []string{dn + ".Manager.GetMinerDistance", dn + ".Manager.GetDeputyByDistance"} {
+			fn := c.Fn(spec)
+			parentMiner := fn.Params[2]
+			// the special-case test: an If whose condition slice holds IsRewardBlock(targetHeight) or targetHeight == 1
+			var special []*ssa.If
+			for _, b := range fn.Blocks {
+				ifi, isIf := b.Instrs[len(b.Instrs)-1].(*ssa.If)
+				if !isIf {
+					continue
+				}
+				sl := core.Slice(ifi.Cond)
+				if sl[fn.Params[1]] && (core.SliceHasCall(sl, snap) || core.SliceHasIntConst(sl, 1) && core.SliceHasOp(sl, token.EQL)) && !sl[parentMiner] {
+					special = append(special, ifi)
+				}
+			}
+			c.Floor(shortFn(fn)+"/term-start-tests", len(special), 2)
+			uses := 0
+			okAll := true
+			var bad ssa.Instruction
+			var walk func(v ssa.Value, d int)
+			seen := map[ssa.Value]bool{}
+			walk = func(v ssa.Value, d int) {
+				if seen[v] || d > 4 || v.Referrers() == nil {
+					return
+				}
+				seen[v] = true
+				for _, r := range *v.Referrers() {
+					switch x := r.(type) {
+					case *ssa.DebugRef:
+					case *ssa.Store:
+						if al, isAl := x.Addr.(*ssa.Alloc); isAl && al.Referrers() != nil {
+							for _, u := range *al.Referrers() {
+								if ld, isLd := u.(*ssa.UnOp); isLd {
+									walk(ld, d+1)
+								}
+							}
+						}
+					case *ssa.BinOp, ssa.CallInstruction:
+						uses++
+						// not reachable over the "is term start" edges: every special test must have been passed on its false side
+						for _, sp := range special {
+							if sp.Block().Dominates(r.Block()) {
+								continue
+							}
+							// a use before (or beside) a special-case test
+							okAll = false
+							bad = r
+						}
+						for _, sp := range special {
+							if core.CanReach(sp.Block().Succs[0], r.Block(), sp.Block()) && !core.CanReach(sp.Block().Succs[1], r.Block(), sp.Block()) {
+								okAll = false
+								bad = r
+							}
+						}
+					}
+				}
+			}
+			walk(parentMiner, 0)
+			where := ""
+			if bad != nil {
+				where = c.Pos(bad.Pos())
+			}
+			c.Check(shortFn(fn)+":parent-miner-only-outside-term-start", "guarded-action", okAll && uses >= 1, fn.Pos(), "%s consults the parent's miner (%d uses) only after the height-1 / first-block-of-term case has been decided; offending use: %s", shortFn(fn), uses, where)
+		}
+	})
+
 	c.NotDecidedf("slot arithmetic is NOT decided: uniqueness of the in-turn deputy per instant, rotation by rank (GetDeputyByDistance), the modulo/window computation in GetCorrectMiner, that GetNextMineWindow is the earliest unfinished slot and agrees with GetCorrectMiner at window boundaries — these quantify over integers and deputy tables")
 	c.NotDecidedf("that the miner loop wakes up inside its own window (timers, wall clock), and the one-second tolerance of verifyTime")
 	c.NotDecidedf("writes to the header through packages outside the scanned scope (storage, RLP reflection, logging) — they are handed values or decode into fresh objects; stated as trusted base, not decided")
